@@ -66,6 +66,7 @@ type ChanCase struct {
 	Seed     int64        `json:"seed"`
 	MaxSteps int          `json:"max_steps"`
 	NoTrace  bool         `json:"no_trace"`
+	Swallow  bool         `json:"swallow"` // the probe's exception handler consumes every exception
 	Codec    bool         `json:"codec"` // pipeline = text codec + delimiter codec ("\x00"); wire parsed by delimiter
 	Props    []string     `json:"props"` // which oracles to apply (empty = all)
 }
@@ -216,6 +217,9 @@ func (p probe) HandleException(ctx netty.ExceptionContext, ex netty.Exception) {
 		}
 	}
 	p.w.exceptions = append(p.w.exceptions, ex)
+	if p.w.c.Swallow {
+		return
+	}
 	ctx.HandleException(ex)
 }
 
@@ -860,6 +864,13 @@ func runChanCase(c *ChanCase) *ChanResult {
 	lastRetLen := map[string]int{}
 	for w.step = 0; w.step < maxSteps; w.step++ {
 		atGate := s.AtGate()
+		if c.Serve == "full" && s.Loc("V") == "v.start" {
+			// nobody has the channel before serveChannel is called
+			atGate = []string{"V"}
+		}
+		for name, val := range s.Crashed {
+			w.fail("C07", "goroutine-crashed", fmt.Sprintf("a panic escaped from goroutine %s and would have terminated the process: %s", name, val))
+		}
 		// choose the next move
 		kind, proc := "", ""
 		for schedIdx < len(c.Schedule) {
@@ -940,7 +951,7 @@ func runChanCase(c *ChanCase) *ChanResult {
 					ev.A = gate + "!fail"
 					w.tr.FailNext = mock.ErrInjected
 					w.faultsUsed++
-					if _, isWriter := w.ops[proc]; !isWriter && netty.VerifState(w.ch).Closed == 0 {
+					if _, isWriter := w.ops[proc]; !isWriter && netty.VerifState(w.ch).Closed == 0 && !(c.Swallow && gate == "t.read") {
 						// a failing transport call of the sender or the read loop on an open channel
 						w.fatalFault = gate + " by " + proc
 					}
